@@ -1,6 +1,9 @@
 package helpers
 
-import "fmt"
+import (
+	"fmt"
+	"reflect"
+)
 
 // IsTruthy converts a value to boolean following Vue semantics.
 // For bound attributes, false values should not render the attribute.
@@ -14,13 +17,22 @@ func IsTruthy(val any) bool {
 			return false
 		}
 		return true
-	case int, int64, float64:
+	case float64:
+		// zero of either sign is falsey
+		return b != 0
+	case float32:
+		return b != 0
+	case int, int64:
 		return fmt.Sprintf("%v", b) != "0"
-	case int8, int16, int32, uint, uint8, uint16, uint32, uint64, uintptr, float32:
+	case int8, int16, int32, uint, uint8, uint16, uint32, uint64, uintptr:
 		return fmt.Sprintf("%v", b) != "0"
 	case nil:
 		return false
 	default:
+		// a nil pointer is nil, whatever its type
+		if rv := reflect.ValueOf(val); rv.Kind() == reflect.Ptr && rv.IsNil() {
+			return false
+		}
 		return true
 	}
 }
